@@ -28,8 +28,14 @@ from vf.sansio import Peer
 
 
 class H3Driver(sansio.Driver):
+    def __init__(self, *a, **kw):
+        super().__init__(*a, **kw)
+        # Context() copies the client's transport protocol to the default server connection; the next hops of these legs are
+        # TCP servers (HTTP/1 or HTTP/2), as with `--mode reverse:http://backend` and a QUIC client
+        self.context.server.transport_protocol = "tcp"
+
     def feed(self, ev):
-        if type(ev) is events.ConnectionClosed and ev.connection.transport_protocol == "udp":
+        if type(ev) is events.ConnectionClosed and ev.connection.transport_protocol == "udp" and (ev.connection.alpn or b"").startswith(b"h3"):
             ev = quic.QuicConnectionClosed(ev.connection, 0, None, "peer closed connection")
         super().feed(ev)
 
